@@ -169,6 +169,7 @@ func (s *Server) serveOne(ctx context.Context, r io.Reader, w io.Writer, shmConn
 	// Resolve the request batch through it when it is a pointer batch carrying
 	// the real parameters in the segment.
 	if seg := shmConn.ensure(req.Metadata); seg != nil {
+		req.connShm = seg
 		reqWasPointer := IsShmPointerBatch(req.Batch)
 		if reqWasPointer {
 			resolved, releaseOff, release, rerr := ResolveShmBatch(req.Batch, seg)
